@@ -451,6 +451,11 @@ func (g *gen) enumDecl(stem, under string, forcePlainIota bool) *Decl {
 			switch under {
 			case "string":
 				v = fmt.Sprintf("%q", strings.ToLower(memberWords[(i*3)%len(memberWords)])+fmt.Sprint(i))
+				if i == 2 && g.pr(0.25) {
+					// longer than the 72 characters go/constant prints in its short form
+					v = fmt.Sprintf("%q", "https://example.org/scopes/"+strings.Repeat("very-long-segment/", 4)+fmt.Sprint(i))
+					g.p.Feature("enum:string-value-longer-than-72-characters")
+				}
 			case "bool":
 				v = []string{"true", "false"}[i%2]
 				if i >= 2 {
@@ -500,6 +505,23 @@ func (g *gen) makeEnums() {
 			g.keyables = append(g.keyables, d)
 		}
 	}
+	// a plain iota block with more than 64 members
+	if g.pr(0.05) {
+		d := g.add(&Decl{Name: g.fresh("Wide" + g.pick(enumStems)), Kind: DEnum, Under: Basic("int")})
+		blk := &ConstBlock{Grouped: true}
+		for i := 0; i < 70; i++ {
+			c := &Const{Names: []string{g.fresh(fmt.Sprintf("%sW%02d", d.Name, (i*37)%70))}} // names not in value order
+			if i == 0 {
+				c.Type, c.Value = true, "iota"
+			}
+			blk.Specs = append(blk.Specs, c)
+		}
+		d.Blocks = []*ConstBlock{blk}
+		d.Tag("plain-iota").Tag("wide")
+		g.p.Feature("enum:plain-iota-70-members")
+		g.enums = append(g.enums, d)
+		g.keyables = append(g.keyables, d)
+	}
 	// an enum whose only constant is unexported (underscore prefixed half of the time)
 	if g.pr(0.3) {
 		d := g.add(&Decl{Name: g.fresh("Mode" + g.pick(enumStems)), Kind: DEnum, Under: Basic(g.pick([]string{"int", "string"}))})
@@ -548,10 +570,17 @@ func (g *gen) makeKeyables() {
 var basicKinds = []string{"int", "string", "bool", "float64", "int64", "int", "string", "uint8", "int16", "int32", "uint16", "int8", "string", "int"}
 var exoticBasics = []string{"float32", "uint", "uint32", "uint64"}
 
+// spellings of one basic type under two names (distinct objects for go/types)
+var aliasBasics = []string{"byte", "rune", "uint8", "int32"}
+
 func (g *gen) basic() *TExpr {
 	if g.opts.ExoticBasics && g.pr(0.15) {
 		g.p.Feature("exotic-basic")
 		return Basic(g.pick(exoticBasics))
+	}
+	if g.pr(0.08) {
+		g.p.Feature("basic:byte-or-rune-spelling")
+		return Basic(g.pick(aliasBasics))
 	}
 	return Basic(g.pick(basicKinds))
 }
@@ -826,6 +855,21 @@ func (g *gen) makeUnions() {
 			sub := g.p.Subs[0]
 			sub.AddExtra("foreign.go", fmt.Sprintf("type Foreign%s struct{ F int }\n\nfunc (Foreign%s) %s() {}", un.Name, un.Name, un.Marker))
 			g.p.Feature("foreign-implementer-non-member")
+			if g.opts.Embedded && g.pr(0.5) {
+				// a local struct that declares no method: it is a member through the method
+				// promoted from the embedded struct of the other package
+				d := g.add(&Decl{Name: g.fresh("Emb" + strings.Title(un.Name)), Kind: DStruct, Fields: []*Field{
+					{Embedded: true, Type: Raw(sub.Name+".Foreign"+un.Name, sub.Path)},
+					{Name: "Own" + strings.Title(un.Name), Type: Basic("string")},
+				}})
+				d.Tag("promoted-member")
+				g.p.Feature("union-member:method-promoted-from-foreign-struct")
+			}
+		}
+		if g.pr(0.3) {
+			// another interface with the same method set (it embeds the union): never a member of it
+			g.root.AddExtra("other.go", fmt.Sprintf("// %sExt embeds the union.\ntype %sExt interface{ %s }", strings.Title(un.Name), strings.Title(un.Name), un.Name))
+			g.p.Feature("interface-embedding-a-union")
 		}
 		g.unions = append(g.unions, un)
 	}
@@ -852,6 +896,17 @@ func (g *gen) makeUnions() {
 			al.File = "other.go"
 		}
 		g.p.Feature("alias-of-union")
+	}
+	// two structs with union fields whose names differ by case only
+	if g.opts.IgnoreAlone && g.pr(0.6) {
+		un := g.unions[g.r.Intn(len(g.unions))]
+		stem := g.fresh("Layer" + g.pick(typeStems))
+		lower := strings.ToLower(stem[:1]) + stem[1:]
+		g.names[lower] = true
+		lo := g.add(&Decl{Name: lower, Kind: DStruct, Fields: []*Field{{Name: "Name", Type: Basic("string"), Tag: `json:"name"`}, {Name: "Content", Type: Ref(un), Tag: `json:"content"`}, {Name: "Z", Type: Basic("int"), Tag: `json:"z"`}}})
+		up := g.add(&Decl{Name: stem, Kind: DStruct, Fields: []*Field{{Name: "Title", Type: Basic("string")}, {Name: "Top", Type: Ref(un)}, {Name: "Below", Type: Ref(lo)}}})
+		g.structs = append(g.structs, up)
+		g.p.Feature("structs-with-unions-differing-by-case-only")
 	}
 	// enum as a union member
 	if len(g.enums) > 0 && g.pr(0.25) {
@@ -1027,6 +1082,12 @@ func (g *gen) makeStructs() {
 			g.p.Feature("map-keyed-by-enum-with-duplicate-values")
 			break
 		}
+	}
+	if g.pr(0.15) && len(g.structs) > 0 {
+		// fixed arrays of the same length over two integer types
+		st := g.structs[0]
+		st.Fields = append(st.Fields, &Field{Name: g.fresh("TripleA"), Type: Array(3, Basic("int"))}, &Field{Name: g.fresh("TripleB"), Type: Array(3, Basic("int64"))})
+		g.p.Feature("arrays-same-length-int-and-int64")
 	}
 	if g.opts.IgnoreAlone && len(g.unions) > 0 {
 		// a struct whose ONLY union field is tagged gomacro:"ignore" (no json:"-"): encoding/json still
